@@ -551,6 +551,7 @@ def case_ids(case):
 def replay_merge_cases(ctx, raw, hits, quick):
     n = 0
     seen_kinds = {}
+    impl = ctx.extra.setdefault("implementation_layer_sorted_results", {"n": 0, "unsorted": 0})
     for case, crc in stream_cases(raw):
         n += 1
         hc = HashChoice(crc ^ (ctx.seed * 7919))
@@ -590,6 +591,16 @@ def replay_merge_cases(ctx, raw, hits, quick):
             ctx.case_seen(key + ":%s%s" % kinds[:2])
             seen_kinds[case["exp"]["k"]] = seen_kinds.get(case["exp"]["k"], 0) + 1
             if res is None:
+                if rname == "canonical" and case["exp"]["k"] == "val" and not case["exp"]["exact"]:
+                    # implementation layer (MergeFields!ImplSl): under a rank-monotone concretization the code's
+                    # result is the SORTED list -- not part of the statement, recorded as drift only
+                    from debian.deb822 import Deb822
+                    kind, val = call(lambda: Deb822()._merge_fields(conc.value(_kv(case["p"])), conc.value(_kv(case["q"]))))
+                    d = ", " if case["exp"]["cs"] and not case["exp"]["sp"] else " "
+                    impl["n"] += 1
+                    if kind != "val" or val != d.join(sorted(conc.items(case["exp"]["set"]))):
+                        impl["unsorted"] += 1
+                        ctx.drift("single-line merge result %r is not the sorted list (implementation layer ImplSl)" % (val,))
                 if case["exp"]["k"] == "val" and not case["exp"]["exact"]:
                     ctx.sample("merge %s + %s -> set %s" % (short(conc.value(_kv(case["p"])), 30), short(conc.value(_kv(case["q"])), 30), case["exp"]["set"]))
                 continue
@@ -1017,7 +1028,7 @@ def replay_env_cases(ctx, raw, hits, quick):
         rounds = ["canonical", "random"]
         has = set(case["inp"])
         bigcands = [c for c in (65, 47, 32) if c in has]
-        if bigcands and (hc.randrange(25 if quick else 12) == 0 or (case["exp"]["k"] == "ok" and case["exp"]["out"] and hc.randrange(3) == 0)):
+        if bigcands and (hc.randrange(25 if quick else 40) == 0 or (case["exp"]["k"] == "ok" and case["exp"]["out"] and hc.randrange(3 if quick else 6) == 0)):
             rounds.append("big")
         for r in rounds:
             if r == "canonical":
@@ -1151,7 +1162,8 @@ def record_env_history(rng, steps):
             kind, val = deser(text)
             events.append({"op": "Deser", "o": "-", "txt": cps(text), "res": enc_res(kind, val)})
         elif op == "Set":
-            objs[o]["Environment"] = text
+            if call(lambda: objs[o].__setitem__("Environment", text))[0] != "val":
+                continue                                 # Deb822 refuses the value (not what is checked here)
             events.append({"op": "Set", "o": o, "txt": cps(text), "res": {"k": "ok", "out": []}})
         elif op == "Del":
             if "Environment" not in objs[o]:
@@ -1271,7 +1283,7 @@ def tlc_validate(ctx, module, traces, strip, ds, diag=False):
     return acc, uns, at
 
 
-def validate(ctx, module, traces, strip, controls, known, hits, describe, case_of, sticky=True):
+def validate(ctx, module, traces, strip, controls, known, hits, describe, case_of, sticky=True, report=None):
     """phase 1: the statement + control traces; phase 2: rejected traces under the known-defect models.
     sticky: an unspecified event ends the judgement of its trace (merge histories) / only of itself"""
     nreal = len(traces)
@@ -1306,7 +1318,7 @@ def validate(ctx, module, traces, strip, controls, known, hits, describe, case_o
     if bad:
         _, _, at = tlc_validate(ctx, module, [traces[i - 1] for i in bad[:10]], strip, [[]], diag=True)
         for j, i in enumerate(bad[:10]):
-            ctx.violation(case_of(i - 1), describe(traces[i - 1], at.get(j + 1, 0)))
+            (report or ctx.violation)(case_of(i - 1), describe(traces[i - 1], at.get(j + 1, 0)))
     return len(bad)
 
 
@@ -1384,7 +1396,7 @@ def model_checking(ctx, quick):
     else:
         jobs += [("merge", "MergeFields", "MC_MergeFields.cfg", 2, dict(keep_raw=True, want_tags=set()), None),
                  ("laws", "MergeFields", "MC_MergeFields_laws.cfg", 2, {}, None),
-                 ("env", "BuildInfoEnv", "MC_BuildInfoEnv.cfg", 3, dict(keep_raw=True, want_tags=set()), None)]
+                 ("env", "BuildInfoEnv", "MC_BuildInfoEnv.cfg", 4, dict(keep_raw=True, want_tags=set()), None)]
         jobs.sort(key=lambda j: -j[3])
         width = 3
     out = {}
@@ -1529,19 +1541,16 @@ def replay(ctx, case):
     if kind == "merge_trace":
         t = rerun_merge_history(case["trace"], case["meta"])
         metas = {id(t): case["meta"]}
-        bad = validate(ctx, "TraceX03Merge", [t], tlc_merge_event, [], MERGE_KNOWN, hits, describe_merge(metas), lambda i: case)
-        if bad:
-            ctx.violations[:] = []
-            return "history still not explained by the specification: " + describe_merge(metas)(t, 0)
-        return None
+        msgs = []
+        validate(ctx, "TraceX03Merge", [t], tlc_merge_event, [], MERGE_KNOWN, hits, describe_merge(metas), lambda i: case,
+                 report=lambda c, m: msgs.append(m))
+        return ("history still not explained by the specification: " + msgs[0]) if msgs else None
     return "unknown case kind"
 
 
 def _replay_env_steps(ctx, steps, hits):
     t = record_env_history(None, [tuple(s) for s in steps])
-    # long texts cannot go through TLC: only traces of the size that was recorded are replayed
-    bad = validate(ctx, "TraceX03Env", [t], strip_env_event, [], ENV_KNOWN, hits, describe_env, lambda i: {"kind": "env_trace", "steps": steps}, sticky=False)
-    if bad:
-        ctx.violations[:] = []
-        return "execution still not explained by the specification: " + describe_env(t, 0)
-    return None
+    msgs = []
+    validate(ctx, "TraceX03Env", [t], strip_env_event, [], ENV_KNOWN, hits, describe_env, lambda i: {"kind": "env_trace", "steps": steps},
+             sticky=False, report=lambda c, m: msgs.append(m))
+    return ("execution still not explained by the specification: " + msgs[0]) if msgs else None
